@@ -24,9 +24,10 @@ func init() {
 			"Added after blind round 5: GetEntriesFrom flushes the buffered writer (directly or through a helper) before it reads a log file; the replication entry codec agreement (shared with C13). " +
 			"Added after blind round 6: the replica's receive functions have no failing exit decided by the size of the received payloads (the primary caps batches by entry count; a refused batch is re-sent and refused for ever); handleErrorState never parks: no plain channel receive, every exit besides cancellation passes SetState(StateConnecting). " +
 			"Added after blind round 7: the replica's state loop returns only on the ctx.Done() arm; the catch-up poll sends the entries as read (no re-slicing before the emptiness test). " +
-			"Added after blind round 8: connecting means dialing: every exit of Replica.connectToPrimary passes connector.Connect (a lifetime budget of failed dials that is never refilled stops the replica for ever); StateTracker.GetStateDuration finds the LATEST transition into the current state (newest-first and stop, or oldest-first without stopping) — the reconnect back-off is computed from it and this replica passes through ERROR after every batch.",
+			"Added after blind round 8: connecting means dialing: every exit of Replica.connectToPrimary passes connector.Connect (a lifetime budget of failed dials that is never refilled stops the replica for ever); StateTracker.GetStateDuration finds the LATEST transition into the current state (newest-first and stop, or oldest-first without stopping) — the reconnect back-off is computed from it and this replica passes through ERROR after every batch. " +
+			"Added after blind round 10: calculateBackoff asks the state tracker for the current state and the time in it and nothing cumulative (a lifetime count of failed dials slows every later catch-up step for good).",
 		NotDecided: "convergence itself, time bounds, join/restart timing, the replica state machine's liveness, retention racing with a slow replica.",
-		Rules:      []func(*Ctx, *Reporter){ruleC14ObserversFollow, ruleC14ObserversSee, ruleC14SeqContract, ruleC14CursorUnits, ruleC14CatchUp, ruleC14PollRetransmits, ruleReplCursor, ruleCatchUpGuard, ruleNoReceiveLimit, ruleCatchUpFlushesFirst, ruleReplEntryCodec, ruleReplicaAcceptsWhatIsSent, ruleErrorStateRetries, ruleReplicationLoopNeverGivesUp, rulePollSendsWhatItRead, ruleConnectAlwaysDials, ruleStateDurationSinceLatestEntry, ruleSenderSendsWhatIsInTheLog, ruleEveryStateChangeIsRecorded},
+		Rules:      []func(*Ctx, *Reporter){ruleC14ObserversFollow, ruleC14ObserversSee, ruleC14SeqContract, ruleC14CursorUnits, ruleC14CatchUp, ruleC14PollRetransmits, ruleReplCursor, ruleCatchUpGuard, ruleNoReceiveLimit, ruleCatchUpFlushesFirst, ruleReplEntryCodec, ruleReplicaAcceptsWhatIsSent, ruleErrorStateRetries, ruleReplicationLoopNeverGivesUp, rulePollSendsWhatItRead, ruleConnectAlwaysDials, ruleStateDurationSinceLatestEntry, ruleSenderSendsWhatIsInTheLog, ruleEveryStateChangeIsRecorded, ruleBackoffFromCurrentEpisodeOnly},
 	})
 }
 
